@@ -871,6 +871,7 @@ func (m *Machine) Explore(entry *ssa.Function) {
 	if maxPaths == 0 {
 		maxPaths = 1000000
 	}
+	firstVioAt := -1
 	for len(m.pending) > 0 {
 		if m.stats.paths >= maxPaths {
 			m.endStatus["PATHBUDGET"] += len(m.pending)
@@ -878,6 +879,22 @@ func (m *Machine) Explore(entry *ssa.Function) {
 		}
 		if !m.deadline.IsZero() && time.Now().After(m.deadline) {
 			m.endStatus["TIMEBUDGET"] += len(m.pending)
+			break
+		}
+		// fail fast: a defect that desynchronises a decoder makes the remaining exploration explode; the violations found
+		// so far are reported (and replayed) by the driver, the rest of the job is recorded as not explored
+		nv := 0
+		for i := range m.violations {
+			if m.violations[i].known == "" {
+				nv++
+			}
+		}
+		if nv > 0 && firstVioAt < 0 {
+			firstVioAt = m.stats.paths
+		}
+		if nv >= 8 || (nv > 0 && m.stats.paths-firstVioAt >= 300) {
+			m.endStatus["PATHBUDGET"] += len(m.pending)
+			m.endSamples["PATHBUDGET"] = "job stopped after 8 distinct violations or 300 paths beyond the first one"
 			break
 		}
 		pp := m.pending[len(m.pending)-1]
